@@ -142,6 +142,7 @@ class CallGraph:
         if key in self._local_cache:
             return self._local_cache[key]
         self._local_cache[key] = set()   # recursion guard
+        depth = 0                        # the cached answer must not depend on how deep the first asker was
         out = set()
         if name in f.params:
             if name == f.self_name and f.cls is not None:
